@@ -6,7 +6,7 @@
      counts only in-window events, skip / skip+count bounds),
      NormalizationContext.event_within_limits (left-to-right [or]: ignored types never reach the
      counting call), NormalizationContext.extract_eventfilters (split on "," and ":", entries that
-     are not exactly key:regex skipped, dict semantics for repeated keys),
+     are not exactly key:regex skipped, one list entry per pair - repeated attributes all count),
      NormalizationContext.event_filtered (walk over "." separated attribute path with its [break]
      on a missing key, [not isinstance(e, dict) and regex.search(str(e))]),
      _attr_to_args, _hex_to_int_str, _name_unification, _capitalized_args and the order of
@@ -263,11 +263,7 @@ Fixpoint walk (e : json) (path : list string) : res json :=
 (* extract_eventfilters *)
 Definition add_filter (acc : list (string * string)) (f : string) : list (string * string) :=
   match split_on ":"%char f with
-  | [k; r] => (fix upd (l : list (string * string)) : list (string * string) :=
-                 match l with
-                 | [] => [(k, r)]
-                 | (k', r') :: t => if String.eqb k k' then (k', r) :: t else (k', r') :: upd t
-                 end) acc
+  | [k; r] => acc ++ [(k, r)]       (* a list of pairs: every entry counts, also a repeated attribute (fix C17b) *)
   | _ => acc
   end.
 Definition extract_filters (s : string) : list (string * string) :=
